@@ -357,8 +357,11 @@ func repairScenario(r *rand.Rand) []dbx.Op {
 	}
 	// a silence longer than the timeout
 	n := 13 + r.Intn(3)
-	if r.Intn(6) == 0 {
+	switch r.Intn(6) {
+	case 0:
 		n = 11 + r.Intn(2) // not long enough: nobody fails
+	case 1:
+		n = r.Intn(6) // the round is planned within the first minute of logical time: only members that were announced at time 0 and never reported are failed, and the hosts that have just reported are as live as they get
 	}
 	for i := 0; i < n; i++ {
 		ops = append(ops, dbx.Op{Op: "tick"})
